@@ -124,7 +124,7 @@ def decide(pid, tier, seed, keep=False, only_obligation=None):
             names = [h["full"] for _, h in hs]
             htime = max(h.get("timeout", 300) for _, h in hs)
             jobs = int(os.environ.get("FV_JOBS", "12"))
-            run = kani.run_harnesses(crate_info["crate"], names, jobs=jobs, harness_timeout=htime, heavy=[h["full"] for _, h in hs if h.get("mem") == "high"],
+            run = kani.run_harnesses(crate_info["crate"], names, jobs=jobs, harness_timeout=htime, heavy=[h["full"] for _, h in hs if h.get("mem") == "high" and tier == "thorough"],   # the quick subsets are small enough (measured)
                                      total_timeout=P.get("total_timeout", 5400) if tier == "quick" else 12 * 3600)
             backends["kani"]["wall_s"] += run["wall_s"]
             backends["kani"]["cmd"] = run["cmd"]
